@@ -72,6 +72,10 @@ CHECKS = {
    text="GEN_Ast.tla enumerates abstract syntax trees: unit kind (program / library module) x every window of the table of instruction forms (every instruction with every immediate form, 296 forms) x 8 nesting shapes (if/else, while, repeat to depth 3), and every combination of boundary values of the length-prefixed fields of the encoding (doc comments 0 / 1 / 65000 characters, procedure names 1 / 40 / 255, import paths 10 / 255 / 256 / 700 / 1023, locals 0 / 1 / 3 / 65535, procedure counts, re-exports). Every scenario is rendered to Miden assembly and put through the real code in two build profiles: parse -> to_bytes -> from_bytes must give an equal AST that re-encodes to the same bytes (with and without imports); source locations written separately and reloaded must restore equality; compiling the round-tripped AST must give the same MAST root, kernel and execution outcome as compiling the original; the compiled-library file holding the imported module must round-trip with and without source locations; stack inputs / outputs, kernels and program info are round-tripped over boundary values (execution proofs in C01).",
    note="Exploration: the oracle is identity; the TLA+ specification contributes the enumeration of the space (TLC) and its coverage accounting. Sources the parser itself refuses are not round-tripped.",
    tech="TLA+-enumerated scenario space (TLC) replayed on the real parser / serialisers / assembler with an identity oracle", ref="DESIGN.md §4 C10"),
+ "C18": dict(cat="model_checking",
+   text="StdLib.tla states the contracts from the procedures' documentation: truncate_stack = the original top 16 elements; memcopy = n words copied one after the other; pipe_words_to_memory = the advice words in order, the advanced pointer and the RPO hash of the moved elements, pipe_preimage_to_memory = the same with a commitment that must match; Merkle mountain range = one peak per set bit of the leaf count (checked on the model: peak count = popcount), each peak the Merkle root of its leaves, get(pos) = the pos-th leaf; sparse Merkle tree = a key -> value map whose set returns the old value. TLC enumerates every stack depth 16..40, every (n <= 5, read_ptr, write_ptr) over overlapping ranges, every word count 0..5, every leaf count up to 9 (thorough: 20) with every position, every initial map x every history of get / set / remove of length 2 (thorough: 3) over three keys, two of which share a leaf, each with the prescribed result; every scenario is compiled into a program that calls the real std:: procedures and run on the VM in two build profiles; stack, memory words and roots are compared with the prescription and with the native miden-crypto Mmr / Smt.",
+   note="Trusted: TLC; miden-crypto's Mmr / Smt / RPO as the native data structures. Leaves holding more than one key-value pair are documented as unimplemented in smt.masm and are outside the enumerated histories.",
+   tech="TLA+ contracts of the standard-library procedures; TLC-enumerated calls and histories replayed on the VM and compared with the prescription and the native data structures", ref="DESIGN.md §4 C18"),
 }
 
 NOT_APPLICABLE = {
